@@ -21,6 +21,21 @@
    Refinement.  attrs (module Xattr) is the property-level map; every action takes the matching abstract step and
    Refines says the placement read back is exactly that map.
 
+   Other subsystems that rewrite the attribute area of the SAME inode (lib/ext2fs/inline_data.c, reached through
+   fileio.c, punch.c, mkdir.c / link.c / expanddir.c): an inline-data inode keeps the part of its contents that does
+   not fit i_block (60 bytes) in the attribute system.data, which exists exactly while EXT4_INLINE_DATA_FL is set.
+   Transcribed: ext2fs_file_write on an inline file (ext2fs_file_write_inline_data -> ext2fs_inline_data_set with
+   the ext2fs_xattr_inode_max_size space test, growth of i_size through ext2fs_file_set_size2 which zeroes the
+   inline area behind the new size, conversion to a block-mapped file by ext2fs_inline_data_expand when the data
+   outgrows the inode body or one block), ext2fs_file_set_size2 (truncation back: the area keeps its size and is
+   zeroed behind the new end; size 0 empties system.data through ext2fs_punch), ext2fs_punch, direct
+   ext2fs_inline_data_set / ext2fs_inline_data_expand, and ext2fs_mkdir in an inline DIRECTORY with the
+   expand-and-retry of its in-tree callers (the 56 bytes of i_block behind the parent pointer fill up, then
+   ext2fs_expand_dir converts the directory to one block and removes system.data).
+   State: inl = EXT4_INLINE_DATA_FL, isize = i_size, ik = number of leading non-zero bytes of i_block, fblk = data
+   blocks the inode owns (always the logical blocks 0..fblk-1), dused = bytes of directory entries, nsub = child
+   inodes created.  Every entry carries nz (see Xattr).
+
    Named deviations (literal behaviour of the pinned tree, DESIGN 3.5):
      DevKeepEmptyBlock  the block is rewritten (empty) instead of freed when its last entry leaves
      DevNoEaCharge      clusters of a value inode are not charged to the owner's i_blocks
@@ -30,11 +45,20 @@ CONSTANTS ISZ, EXTRA, BS,        \* inode size, i_extra_isize, block size
           EAINODE,               \* ea_inode feature
           INLINE,                \* the inode starts with an (empty) system.data entry in its body: an inline-data file
           WithPeer,              \* the environment may make a peer inode share our block
+          ISDIR,                 \* the inode under test is a directory (INLINE: an inline directory made by ext2fs_mkdir)
+          INITSZ,                \* INLINE file: bytes (all non-zero, <= 60) it holds initially
+          FSizes,                \* byte counts of the file operations TLC enumerates ({} = none)
+          DNameLens,             \* name lengths of the sub-directories TLC creates in a directory under test
           MaxOps, MaxEa,
           DevKeepEmptyBlock, DevNoEaCharge, DevCowNoEaRef
-VARIABLES place, ib, hasblk, magic, pstate, pblk, eai, chg, res, nops
-pvars == <<place, ib, hasblk, magic, pstate, pblk, eai, chg, res, nops>>
+VARIABLES place, ib, hasblk, magic, pstate, pblk, eai, chg, res, nops,
+          inl, isize, ik, fblk, dused, nsub
+xv == <<place, ib, hasblk, magic, pstate, pblk, eai>>
+fvars == <<inl, isize, ik, fblk, dused, nsub>>
+pvars == <<xv, chg, res, nops, fvars>>
 vars == <<attrs, pvars>>
+Max(a, b) == IF a >= b THEN a ELSE b
+Min(a, b) == IF a <= b THEN a ELSE b
 
 Rep(c, k) == [i \in 1..k |-> c]
 \* name id -> (e_name_index, short name bytes).  Same table as checks/c15.py NAMES (the trace's reset line carries it).
@@ -82,10 +106,10 @@ FindPos(blk, n) ==
        S == {i \in 1..Len(blk) : Stop(blk[i])}
    IN IF S = {} THEN Len(blk) ELSE (CHOOSE i \in S : \A j \in S : i <= j) - 1
 
-\* xattr_array_update: [ok, place, ib]; newid = id the new value inode would get (ininode only)
-Update(pl, k, n, v, t, ininode, noblock, newid) ==
+\* xattr_array_update: [ok, place, ib]; newid = id the new value inode would get (ininode only); z = nz of the value
+Update(pl, k, n, v, t, z, ininode, noblock, newid) ==
    LET old == IndexOf(pl, n)
-       ent == [n |-> n, vlen |-> v, tag |-> NormTag(v, t), ea |-> IF ininode THEN newid ELSE 0]
+       ent == [n |-> n, vlen |-> v, tag |-> NormTag(z, t), ea |-> IF ininode THEN newid ELSE 0, nz |-> z]
        needed == LEN(NLen(n)) + (IF ininode THEN 0 ELSE SIZE(v))
        ibfree0 == IF ISZ > 128 THEN IbodySpace - Used(IbP(pl, k)) ELSE 0
        ibfree == IF old # 0 /\ old <= k THEN ibfree0 + Cost(pl[old]) ELSE ibfree0
@@ -129,8 +153,8 @@ WriteBlock(pl, k) ==
       ELSE IF pstate = "shared" THEN [hasblk |-> TRUE, pstate |-> "own", pblk |-> oldblk, cow |-> TRUE, dchg |-> 0]
       ELSE [hasblk |-> TRUE, pstate |-> pstate, pblk |-> pblk, cow |-> FALSE, dchg |-> 0]
 
-\* common tail of a successful, state-changing set / remove
-Commit(pl, k, mk, v, dec, decsize) ==
+\* common tail of a successful, state-changing set / remove; dfile = data blocks of the file gained (lost) in the same operation
+Commit(pl, k, mk, v, dec, decsize, dfile) ==
    LET w == WriteBlock(pl, k)
        \* leaving a shared block (private copy, or dropping our reference to it): the entries it names stay referenced
        \* by the peer, so what we carry over or drop must not consume the block's references (the kernel clones the
@@ -140,63 +164,181 @@ Commit(pl, k, mk, v, dec, decsize) ==
       /\ hasblk' = w.hasblk /\ pstate' = w.pstate /\ pblk' = w.pblk
       /\ magic' = (magic \/ ISZ > 128)
       /\ eai' = EaStep(eai, mk, v, inc, dec)
-      /\ chg' = chg + w.dchg + (IF DevNoEaCharge THEN 0 ELSE (IF mk # 0 THEN DB(v) ELSE 0) - (IF dec # 0 THEN DB(decsize) ELSE 0))
+      /\ chg' = chg + dfile + w.dchg + (IF DevNoEaCharge THEN 0 ELSE (IF mk # 0 THEN DB(v) ELSE 0) - (IF dec # 0 THEN DB(decsize) ELSE 0))
 
 Tick == nops < MaxOps /\ nops' = nops + 1          \* MaxOps bounds the length of the histories TLC enumerates
 PSet(n, v, t) ==
    LET old == IndexOf(place, n)
-       same == old # 0 /\ place[old].ea = 0 /\ place[old].vlen = v /\ (v = 0 \/ place[old].tag = t)
+       same == old # 0 /\ place[old].ea = 0 /\ place[old].vlen = v /\ place[old].nz = v /\ (v = 0 \/ place[old].tag = t)
        newid == FreeEa(eai)
        big == EAINODE /\ v > MinLargeEa
-       r == IF n = DATA THEN Update(place, ib, n, v, t, FALSE, TRUE, 0)
-            ELSE LET r1 == Update(place, ib, n, v, t, big, FALSE, newid)
-                 IN IF ~r1.ok /\ ~big /\ EAINODE THEN Update(place, ib, n, v, t, TRUE, FALSE, newid) ELSE r1
+       r == IF n = DATA THEN Update(place, ib, n, v, t, v, FALSE, TRUE, 0)
+            ELSE LET r1 == Update(place, ib, n, v, t, v, big, FALSE, newid)
+                 IN IF ~r1.ok /\ ~big /\ EAINODE THEN Update(place, ib, n, v, t, v, TRUE, FALSE, newid) ELSE r1
        mk == IF r.ok THEN r.place[IndexOf(r.place, n)].ea ELSE 0
        dec == IF old # 0 THEN place[old].ea ELSE 0
-   IN /\ Tick
+   IN /\ Tick /\ UNCHANGED fvars
+      /\ (n = DATA => inl /\ ~ISDIR)                                \* system.data belongs to inline-data inodes only (and an inline
+                                                                    \* directory's i_size must follow it: left to inline_data.c)
       /\ IF same THEN /\ res' = 0 /\ ASet(n, v, t)                   \* "imitate kernel behavior by skipping update"
-                      /\ UNCHANGED <<place, ib, hasblk, magic, pstate, pblk, eai, chg>>
+                      /\ UNCHANGED <<xv, chg>>
          ELSE IF ~r.ok THEN /\ res' = 1 /\ ARefused
-                            /\ UNCHANGED <<place, ib, hasblk, magic, pstate, pblk, eai, chg>>
+                            /\ UNCHANGED <<xv, chg>>
          ELSE /\ res' = 0 /\ ASet(n, v, t)
-              /\ Commit(r.place, r.ib, mk, v, dec, IF old # 0 THEN place[old].vlen ELSE 0)
+              /\ Commit(r.place, r.ib, mk, v, dec, IF old # 0 THEN place[old].vlen ELSE 0, 0)
 
 PRemove(n) ==
    LET old == IndexOf(place, n) IN
-   /\ Tick /\ res' = 0 /\ ARemove(n)
-   /\ IF old = 0 THEN UNCHANGED <<place, ib, hasblk, magic, pstate, pblk, eai, chg>>       \* "no key found, success!"
-      ELSE Commit(RemoveAt(place, old), IF old <= ib THEN ib - 1 ELSE ib, 0, 0, place[old].ea, place[old].vlen)
+   /\ Tick /\ res' = 0 /\ ARemove(n) /\ UNCHANGED fvars
+   /\ IF old = 0 THEN UNCHANGED <<xv, chg>>                                                \* "no key found, success!"
+      ELSE Commit(RemoveAt(place, old), IF old <= ib THEN ib - 1 ELSE ib, 0, 0, place[old].ea, place[old].vlen, 0)
 
 \* environment: another inode starts sharing our block (h_refcount 1 -> 2)
 PShare == /\ WithPeer /\ hasblk /\ pstate = "none"
           /\ pstate' = "shared" /\ Tick /\ res' = 0
-          /\ UNCHANGED <<attrs, place, ib, hasblk, magic, pblk, eai, chg>>
+          /\ UNCHANGED <<attrs, place, ib, hasblk, magic, pblk, eai, chg, fvars>>
+
+
+------------------------------------------------------------------------------
+(* Inline data: the other writer of the attribute area.  All of these open their own handle (inline_data.c), so at
+   most the content of system.data changes per xattr write.  Where one library call rewrites system.data twice in
+   place (write, then zeroing behind the new i_size) the net effect is one rewrite with the final content: the
+   second rewrite keeps the size, hence the placement, and a copy-on-write of a shared block happens at the first. *)
+DI == IndexOf(place, DATA)
+D == place[DI]                                       \* the system.data entry (inl => DI # 0, invariant DataIffInline)
+Area == 60 + D.vlen                                  \* ext2fs_inline_data_size
+IbFree == IbodySpace - Used(IbP(place, ib))          \* ext2fs_xattr_inode_max_size on a body that has the magic
+InlNoSpace(ns) == ns # Area /\ ns > Area + IbFree    \* ext2fs_inline_data_set: EXT2_ET_INLINE_DATA_NO_SPACE
+AreaZero == ik = 0 /\ D.nz = 0                       \* the inline area holds only zero bytes
+\* ext2fs_xattr_set(h, "system.data", v bytes: z of pattern t, then zeros) through a fresh handle
+XData(v, t, z, dfile) ==
+   LET same == D.vlen = v /\ D.nz = z /\ D.tag = NormTag(z, t)
+       r == Update(place, ib, DATA, v, t, z, FALSE, TRUE, 0)
+   IN /\ DI # 0 /\ r.ok                              \* the caller tested the space (InlNoSpace); never refused here
+      /\ APut(DATA, ValZ(v, t, z))
+      /\ IF same THEN UNCHANGED xv /\ chg' = chg + dfile
+         ELSE Commit(r.place, r.ib, 0, 0, 0, 0, dfile)
+\* ext2fs_inline_data_ea_remove
+XDataRemove(dfile) ==
+   /\ APut(DATA, None)
+   /\ IF DI = 0 THEN UNCHANGED xv /\ chg' = chg + dfile
+      ELSE Commit(RemoveAt(place, DI), IF DI <= ib THEN ib - 1 ELSE ib, 0, 0, 0, 0, dfile)
+NoX(dfile) == UNCHANGED <<attrs, xv>> /\ chg' = chg + dfile
+
+\* ext2fs_file_open + ext2fs_file_write(sz bytes of pattern t at offset 0) + ext2fs_file_close
+PWrite(sz, t) ==
+   /\ ~ISDIR /\ sz > 0 /\ Tick /\ res' = 0 /\ UNCHANGED <<dused, nsub>>
+   /\ IF ~inl THEN
+         /\ NoX(Max(fblk, DB(sz)) - fblk)
+         /\ isize' = Max(isize, sz) /\ fblk' = Max(fblk, DB(sz)) /\ UNCHANGED <<inl, ik>>
+      ELSE LET ns == Max(Area, sz)
+               c == Max(0, sz - 60)                                  \* bytes of system.data the write covers
+           IN IF sz <= BS /\ ~InlNoSpace(ns) THEN
+                 LET k1 == IF c >= D.nz THEN c ELSE D.nz
+                     t1 == IF c = 0 THEN D.tag ELSE t
+                     zero == isize < sz /\ sz < ns                   \* i_size grows inside the area: the rest is zeroed
+                     k2 == IF zero THEN Min(k1, c) ELSE k1
+                     i1 == Max(ik, Min(sz, 60))
+                 IN /\ (c = 0 \/ c >= D.nz \/ D.tag = t \/ zero)    \* universe: the area never mixes two patterns
+                    /\ XData(ns - 60, t1, k2, 0)
+                    /\ isize' = Max(isize, sz) /\ ik' = (IF zero THEN Min(i1, sz) ELSE i1)
+                    /\ UNCHANGED <<inl, fblk>>
+              ELSE \* ext2fs_inline_data_expand, i_size put back, then the ordinary block write
+                 LET f1 == IF AreaZero THEN 0 ELSE 1                 \* an all-zero area becomes a hole
+                     f2 == IF isize = 0 THEN 0 ELSE f1               \* i_size 0: the block is punched again
+                     f3 == Max(f2, DB(sz))
+                 IN /\ XDataRemove(f3)
+                    /\ inl' = FALSE /\ isize' = Max(isize, sz) /\ fblk' = f3 /\ ik' = 0
+
+\* ext2fs_file_open + ext2fs_file_set_size2(s) + ext2fs_file_close
+PTrunc(s) ==
+   /\ ~ISDIR /\ Tick /\ res' = 0 /\ UNCHANGED <<dused, nsub, inl>>
+   /\ IF ~inl THEN
+         /\ NoX(Min(fblk, DB(s)) - fblk)
+         /\ isize' = s /\ fblk' = Min(fblk, DB(s)) /\ UNCHANGED ik
+      ELSE IF s = 0 THEN
+         IF isize > 0 THEN XData(0, 0, 0, 0) /\ ik' = 0 /\ isize' = 0 /\ UNCHANGED fblk     \* ext2fs_punch_inline_data
+         ELSE NoX(0) /\ UNCHANGED <<isize, ik, fblk>>
+      ELSE LET zero == (s % BS # 0) /\ s < Area                      \* ext2fs_file_zero_past_offset
+           IN /\ XData(D.vlen, D.tag, IF zero THEN Min(D.nz, Max(0, s - 60)) ELSE D.nz, 0)
+              /\ ik' = (IF zero THEN Min(ik, s) ELSE ik) /\ isize' = s /\ UNCHANGED fblk
+
+\* ext2fs_inline_data_set(fs, ino, NULL, sz bytes of pattern t, sz); in-tree callers call it on inline inodes only
+PISet(sz, t) ==
+   /\ ~ISDIR /\ inl /\ Tick /\ UNCHANGED <<dused, nsub, inl, isize, fblk>>
+   /\ IF sz <= 60 THEN res' = 0 /\ XData(0, 0, 0, 0) /\ ik' = Max(ik, sz)
+      ELSE IF InlNoSpace(sz) THEN res' = 4 /\ NoX(0) /\ UNCHANGED ik
+      ELSE res' = 0 /\ XData(sz - 60, t, sz - 60, 0) /\ ik' = 60
+
+\* ext2fs_inline_data_expand(fs, ino)
+PIExpand ==
+   /\ Tick /\ UNCHANGED <<dused, nsub>>
+   /\ IF ~inl THEN res' = 3 /\ NoX(0) /\ UNCHANGED <<inl, isize, ik, fblk>>              \* EXT2_ET_NO_INLINE_DATA
+      ELSE IF ISDIR THEN /\ res' = 0 /\ XDataRemove(1)
+                         /\ inl' = FALSE /\ fblk' = 1 /\ isize' = BS /\ UNCHANGED ik
+      ELSE LET f1 == IF AreaZero THEN 0 ELSE 1
+           IN /\ res' = 0 /\ XDataRemove(f1)
+              /\ inl' = FALSE /\ fblk' = f1 /\ isize' = (IF AreaZero THEN 0 ELSE Area) /\ ik' = 0
+
+\* ext2fs_punch(fs, ino, NULL, NULL, 0, ~0ULL)
+PPunch ==
+   /\ ~ISDIR /\ Tick /\ res' = 0 /\ UNCHANGED <<dused, nsub, inl>>
+   /\ IF inl THEN XData(0, 0, 0, 0) /\ ik' = 0 /\ isize' = 0 /\ UNCHANGED fblk
+      ELSE NoX(0 - fblk) /\ fblk' = 0 /\ UNCHANGED <<isize, ik>>
+
+\* A new child (an inline directory or an empty inline file: one inode, no block) is linked into the directory under
+\* a name of length nl: ext2fs_mkdir(fs, dir, 0, name), or ext2fs_new_inode + ext2fs_link (debugfs write); on
+\* EXT2_ET_DIR_NO_SPACE ext2fs_expand_dir + retry (misc/create_inode.c do_mkdir_internal / do_write_internal).
+\* Entries are only added, so the free space is one tail.
+Rec(nl) == 8 + ((nl + 3) \div 4) * 4                                 \* EXT2_DIR_REC_LEN
+DirBlockRoom == BS - 12 - 24                                         \* one block minus checksum tail, "." and ".."
+PMkdirIn(nl) ==
+   /\ ISDIR /\ Tick /\ res' = 0 /\ nsub' = nsub + 1 /\ dused' = dused + Rec(nl) /\ UNCHANGED ik
+   /\ IF inl /\ dused + Rec(nl) <= 56 THEN NoX(0) /\ UNCHANGED <<inl, isize, fblk>>
+      ELSE /\ dused + Rec(nl) <= DirBlockRoom                        \* universe: the directory stays within one block
+           /\ IF inl THEN XDataRemove(1) /\ inl' = FALSE /\ fblk' = 1 /\ isize' = BS
+              ELSE NoX(0) /\ UNCHANGED <<inl, isize, fblk>>
 
 InitPresent == IF INLINE THEN {DATA} ELSE {}
+InitISize == IF ~INLINE THEN 0 ELSE IF ISDIR THEN 60 ELSE INITSZ
+InitIk == IF INLINE /\ ~ISDIR THEN INITSZ ELSE 0
 Init == /\ AInit(InitPresent)
-        /\ place = IF INLINE THEN <<[n |-> DATA, vlen |-> 0, tag |-> 0, ea |-> 0]>> ELSE <<>>
+        /\ place = IF INLINE THEN <<[n |-> DATA, vlen |-> 0, tag |-> 0, ea |-> 0, nz |-> 0]>> ELSE <<>>
         /\ ib = IF INLINE THEN 1 ELSE 0
         /\ hasblk = FALSE /\ magic = INLINE /\ pstate = "none" /\ pblk = <<>>
         /\ eai = [k \in 1..MaxEa |-> NoEa] /\ chg = 0 /\ res = 0 /\ nops = 0
+        /\ inl = INLINE /\ isize = InitISize /\ ik = InitIk /\ fblk = 0 /\ dused = 0 /\ nsub = 0
 \* system.data is never removed through this interface (inline_data.c removes it only while converting the file)
+FileOps == FSizes # {}
 Next == \/ \E n \in Names, v \in VLens, t \in Tags : PSet(n, v, t)
         \/ \E n \in Names \ {DATA} : PRemove(n)
         \/ PShare
+        \/ \E s \in FSizes, t \in Tags : PWrite(s, t) \/ PISet(s, t)
+        \/ \E s \in FSizes \cup {0} : FileOps /\ PTrunc(s)
+        \/ (FileOps \/ DNameLens # {}) /\ PIExpand
+        \/ FileOps /\ PPunch
+        \/ \E nl \in DNameLens : PMkdirIn(nl)
 Spec == Init /\ [][Next]_vars
 
 ------------------------------------------------------------------------------
 \* what a reader of the placement sees
-Abs == [n \in Names |-> LET i == IndexOf(place, n) IN IF i = 0 THEN None ELSE [vlen |-> place[i].vlen, tag |-> place[i].tag]]
+Abs == [n \in Names |-> LET i == IndexOf(place, n) IN IF i = 0 THEN None ELSE [vlen |-> place[i].vlen, tag |-> place[i].tag, nz |-> place[i].nz]]
 Refines == Abs = attrs
 TypeOK == /\ AbsTypeOK /\ ib \in 0..Len(place) /\ hasblk \in BOOLEAN /\ magic \in BOOLEAN
-          /\ pstate \in {"none", "shared", "own"} /\ res \in {0, 1}
-          /\ \A i \in 1..Len(place) : place[i].n \in Names /\ place[i].ea \in 0..MaxEa
+          /\ pstate \in {"none", "shared", "own"} /\ res \in {0, 1, 3, 4}
+          /\ \A i \in 1..Len(place) : place[i].n \in Names /\ place[i].ea \in 0..MaxEa /\ place[i].nz \in 0..place[i].vlen
+          /\ inl \in BOOLEAN /\ isize \in Nat /\ ik \in 0..60 /\ fblk \in Nat /\ dused \in Nat /\ nsub \in Nat
 NoDup == \A i, j \in 1..Len(place) : i # j => place[i].n # place[j].n
 NoOverflow == /\ Used(IbP(place, ib)) <= IbodySpace
               /\ Used(BlP(place, ib)) <= BlockSpace
               /\ (ISZ <= 128 => ib = 0)
 SortedBlock == \A i, j \in (ib + 1)..Len(place) : i < j => KeyLess(place[i].n, place[j].n)
 DataInIbody == LET i == IndexOf(place, DATA) IN i # 0 => i <= ib
+\* system.data exists exactly while the inode has EXT4_INLINE_DATA_FL (no stale entry after a conversion, none lost before)
+DataIffInline == inl <=> IndexOf(place, DATA) # 0
+\* only system.data can have a zero tail; an inline inode owns no data block; the inline area fits one block
+ValueShapes == /\ \A i \in 1..Len(place) : place[i].n # DATA => place[i].nz = place[i].vlen
+               /\ (inl => fblk = 0 /\ Area <= BS)
 \* storage: the block exists exactly while it has entries (an empty block kept allocated is a leak: DevKeepEmptyBlock breaks this)
 BlockIffEntries == hasblk <=> (BlP(place, ib) # <<>>)
 Shared == pstate = "shared" => hasblk
@@ -210,10 +352,10 @@ PeerIntact == pstate = "own" => \A i \in 1..Len(pblk) : pblk[i].ea # 0 => eai[pb
 EaOnlyWithFeature == (~EAINODE) => \A i \in 1..Len(place) : place[i].ea = 0
 \* the owner's i_blocks: one block for the xattr block plus the clusters of every value inode it references
 EaCharge(s) == LET F[i \in 0..Len(s)] == IF i = 0 THEN 0 ELSE F[i - 1] + (IF s[i].ea # 0 THEN DB(s[i].vlen) ELSE 0) IN F[Len(s)]
-Charge == chg = (IF hasblk THEN 1 ELSE 0) + EaCharge(place)
+Charge == chg = (IF hasblk THEN 1 ELSE 0) + EaCharge(place) + fblk
 \* allocation totals implied by the state (compared with the real free counts by the trace spec)
-BlkAlloc == (IF hasblk THEN 1 ELSE 0) + (IF pstate = "own" THEN 1 ELSE 0)
-InoAlloc == Cardinality({k \in 1..MaxEa : eai[k].ref > 0})
+BlkAlloc == (IF hasblk THEN 1 ELSE 0) + (IF pstate = "own" THEN 1 ELSE 0) + fblk
+InoAlloc == Cardinality({k \in 1..MaxEa : eai[k].ref > 0}) + nsub
 DataAlloc == LET F[k \in 0..MaxEa] == IF k = 0 THEN 0 ELSE F[k - 1] + DB(eai[k].size) IN F[MaxEa]
 \* exact layout: e_value_offs of entry i of a part whose storage area has `area` bytes (+ `corr` for the block header)
 ValOff(s, i, area, corr) == LET F[j \in 0..i] == IF j = 0 THEN 0 ELSE F[j - 1] + (IF s[j].ea # 0 THEN 0 ELSE SIZE(s[j].vlen))
